@@ -16,6 +16,7 @@ responsive, silent and closed backends.
 -/
 import SamVerif.Proofs.Listener
 import SamVerif.Gen.Listener
+import SamVerif.Proofs.UpStop
 namespace SamVerif.Props.C09
 open SamVerif.Listener
 
@@ -402,16 +403,16 @@ theorem code_matches_model :
        "if atomic.LoadInt32(&u.started) == 1 { <-u.done }"] ∧
     Gen.Listener.upstreamServe =
       ["atomic.StoreInt32(&u.started, 1)",
-       "var wg sync.WaitGroup",
-       "wg.Add(2)",
-       "go func() { defer wg.Done() u.loopRefreshSlots() }()",
-       "go func() { defer wg.Done() u.hkc.Run(u.quit) }()",
-       "wg.Wait()",
-       "u.clientsMu.Lock()",
-       "clients := u.loadClients()",
-       "for _, c := range clients { c.Stop() }",
-       "u.clientsMu.Unlock()",
-       "close(u.done)"] ∧
+      "var wg sync.WaitGroup",
+      "wg.Add(2)",
+      "go func() { defer wg.Done() u.loopRefreshSlots() }()",
+      "go func() { defer wg.Done() u.hkc.Run(u.quit) }()",
+      "wg.Wait()",
+      "u.clientsMu.Lock()",
+      "clients := u.loadClients()",
+      "u.clientsMu.Unlock()",
+      "for _, c := range clients { c.Stop() }",
+      "close(u.done)"] ∧
     Gen.Listener.sessionLoopWrite =
       ["var ( req *rawRequest err error )",
        "for { select { case <-s.quit: return case req = <-s.processingReqs: } select { case <-req.done: case <-s.quit: return } resp := req.Response() if err = s.enc.Encode(resp); err != nil { goto FAIL } if len(s.processingReqs) != 0 { continue } if err = s.enc.Flush(); err != nil { goto FAIL } }",
@@ -509,7 +510,54 @@ theorem stuck_means_returned (limit : Nat) (pre : List Label) (s : L) (h : run (
     obtain ⟨l, hl, hen⟩ := stop_never_stuck limit pre s h (by rw [hp]; intro h; cases h) (by rw [hp]; intro h; cases h)
     rw [hstuck l hl] at hen; cases hen
 
+
 end SamVerif.Props.C09
+
+/-! ### stopping the Redis upstream while a read loop follows a redirection -/
+
+namespace SamVerif.Props.C09u
+open SamVerif.UpStop
+
+
+/-- **Stopping the upstream completes and leaves no connection behind** (as repaired): from the
+moment Stop has closed quit, every schedule of Serve's wind-down, of the read loop that is in the
+middle of a redirection and of the pending dial is finite, and when nothing can move any more
+Stop has returned and neither the client whose read loop it was nor the one the redirection
+created is running. -/
+theorem upstream_stop_completes (pre : List Label) (u : U) (h : run { fixed := true } pre = some u)
+    (hc : stopCalled u.sp) (ls : List Label) (hint : ∀ l ∈ ls, internal l = true) (u' : U) (hr : run u ls = some u') :
+    ls.length ≤ mu u ∧
+    ((∀ l, internal l = true → step u' l = none) → u'.sp = .returned ∧ u'.aRunning = false ∧ u'.bRunning = false) := by
+  have hi := inv_run pre _ u inv_init h
+  obtain ⟨hm, hi', hc'⟩ := wind_down ls u u' hi hc hint hr
+  refine ⟨by omega, ?_⟩
+  intro hstuck
+  have hret : u'.sp = .returned := by
+    apply Classical.byContradiction
+    intro hn
+    obtain ⟨l, hl, hen⟩ := progress u' hi' hc' hn
+    rw [hstuck l hl] at hen; cases hen
+  exact ⟨hret, hi'.ret hret⟩
+
+/-- F-09h, the behaviour before the repair: Serve stopped the clients while holding clientsMu.
+A read loop that has passed the quit check of MakeRequestToHost just before Stop closes quit then
+waits for the lock in createClient, while Serve — holding the lock — waits for that read loop to
+end: nothing can move any more and Stop has not returned. -/
+theorem old_stop_holding_the_lock_deadlocks :
+    ∃ u, run { fixed := false } [.redirect, .stopQuit, .stopLock] = some u ∧ u.sp ≠ .returned ∧ ∀ l, step u l = none := by
+  refine ⟨_, rfl, by decide, ?_⟩
+  intro l
+  cases l <;> rfl
+
+/-- the same schedule on the repaired code: the lock is released, the read loop gets it, sees quit, and everything winds down -/
+example : ∃ u, run { fixed := true } [.redirect, .stopQuit, .stopLock, .stopUnlock, .rlLock, .stopA, .stopReturn] = some u
+    ∧ u.sp = .returned ∧ u.aRunning = false := ⟨_, rfl, by decide⟩
+
+/-- a connection being dialled when Stop arrives is waited for and stopped too (the barrier the lock is there for) -/
+example : ∃ u, run { fixed := true } [.redirect, .rlLock, .stopQuit, .dialDone, .stopLock, .stopUnlock, .stopA, .stopB, .stopReturn] = some u
+    ∧ u.sp = .returned ∧ u.bRunning = false := ⟨_, rfl, by decide⟩
+
+end SamVerif.Props.C09u
 
 #print axioms SamVerif.Props.C09.stop_releases
 #print axioms SamVerif.Props.C09.stop_never_stuck
@@ -524,3 +572,5 @@ end SamVerif.Props.C09
 #print axioms SamVerif.Props.C09.code_matches_model
 #print axioms SamVerif.Props.C09.stop_completes
 #print axioms SamVerif.Props.C09.stuck_means_returned
+#print axioms SamVerif.Props.C09u.upstream_stop_completes
+#print axioms SamVerif.Props.C09u.old_stop_holding_the_lock_deadlocks
